@@ -178,6 +178,24 @@ def with_local_callees(c, h, depth=1, same_file=True):
     return out
 
 
+def helper_bodies(c, node, max_nodes=150, ret=r"^(bool|core::result::Result<bool, .*>)$"):
+    """bodies of the small crate-local *predicates* (return type bool / Result<bool, _>) called under `node`: a test factored out of a
+    function into a private helper keeps being seen by the rule about that function"""
+    import re as _re
+    out, seen = [], set()
+    for n in walk(node):
+        if n.get("k") in ("call", "mcall"):
+            k = callee(n)
+            if k and k in c.hir and k not in seen and c.hir[k].get("body") is not None and k in c.bodies:
+                seen.add(k)
+                if ret and not _re.search(ret, c.bodies[k].locals[0]["ty"]):
+                    continue
+                body = c.hir[k]["body"]
+                if sum(1 for _ in walk(body)) <= max_nodes:
+                    out.append(body)
+    return out
+
+
 def panics_in(node):
     """macro-level panic family sites under node: list of (macro name, line)"""
     out = []
